@@ -13,6 +13,15 @@ def P(src, variant, name, args=None, tiers=('quick', 'thorough'), tier_args=None
 
 
 CHECKS = {
+    'C01': {
+        'engine': 'langx',
+        'rule': 'bounded-exhaustive template texts in exact-size buffers',
+        'parts': [
+            P('props/C01.cpp', 'asan+hook', 'tokens-asan-hook', tier_args={'quick': ['--tokens', '3', '--values', '4'], 'thorough': ['--tokens', '4', '--values', '3', '--wide', '0']}),
+            P('props/C01.cpp', 'fast', 'tokens-fast', tier_args={'quick': ['--tokens', '3', '--values', '4'], 'thorough': ['--tokens', '4', '--values', '3', '--wide', '0']}),
+        ],
+        'floor': {'quick': 100, 'thorough': 100},
+    },
     'C08': {
         'engine': 'seqx',
         'rule': 'stringify/parse round trip over reachable Value states and a product set',
